@@ -609,7 +609,7 @@ def main():
             defaults["filters"] = text
             json.dump(defaults, open(DEFAULTS_PATH, "w"))
             print("wrote filters to " + DEFAULTS_PATH)
-    except (ParseError, OSError, ValueError, KeyError, IndexError) as ex:
+    except Exception as ex:  # anything unexpected in the source: fall back, never crash
         print("gen_filters: could not extract (recorded translation used; tie by correspondence only): Filters / FilterChangeset (%s)" % ex, file=sys.stderr)
         text = defaults.get("filters")
         if text is None:
